@@ -7912,7 +7912,7 @@ func (p *Parser) parseParenthesizedSelect() *ast.SelectWithUnionQuery {
 	if !p.currentIs(token.SELECT) && !p.currentIs(token.WITH) && !p.currentIs(token.LPAREN) {
 		// Not a SELECT and not nested parens, just skip until we find closing paren
 		depth := 1
-		for depth > 0 && !p.currentIs(token.EOF) {
+		for depth > 0 && !p.currentIs(token.EOF) && !p.currentIs(token.SEMICOLON) {
 			if p.currentIs(token.LPAREN) {
 				depth++
 			} else if p.currentIs(token.RPAREN) {
